@@ -93,6 +93,9 @@ def jobs_for(prop, suite):
     return jobs
 
 
+EQUIV_PROP = "all"
+
+
 def equiv_variant(path):
     """behaviour-preserving variant: every check must stay silent"""
     d = scratch()
@@ -104,7 +107,7 @@ def equiv_variant(path):
         shutil.rmtree(repo + "/.git", ignore_errors=True)
         if subprocess.run(["go", "build", "./..."], cwd=repo, capture_output=True, env=ENV).returncode != 0:
             return dict(id=os.path.basename(path), status="skipped", why="does not compile")
-        rc, nviol, rules, out = run_check(d, "all")
+        rc, nviol, rules, out = run_check(d, EQUIV_PROP)
         alarms = sorted(set(l.split()[1] for l in out.splitlines() if l.startswith("VIOLATION property=")))
         fatal = [l for l in out.splitlines() if "unresolved anchor" in l or "fatal" in l.lower()][:3]
         return dict(id=os.path.basename(path), status="silent" if rc == 0 and nviol == 0 else "FALSE-ALARM", exit=rc, alarms=alarms, rules=rules, fatal=fatal)
@@ -114,9 +117,13 @@ def equiv_variant(path):
 
 def main():
     if len(sys.argv) > 1 and sys.argv[1] == "equiv":
+        global EQUIV_PROP
+        for i, a in enumerate(sys.argv):
+            if a == "--prop":
+                EQUIV_PROP = sys.argv[i + 1]
         pat = sys.argv[2] if len(sys.argv) > 2 and not sys.argv[2].startswith("--") else "*"
         paths = sorted(glob.glob(VERIF + "/mutants/equiv/" + pat + ".diff"))
-        with concurrent.futures.ThreadPoolExecutor(max_workers=5) as ex:
+        with concurrent.futures.ThreadPoolExecutor(max_workers=5 if EQUIV_PROP == "all" else 8) as ex:
             rs = list(ex.map(equiv_variant, paths))
         known = {}
         kp = VERIF + "/mutants/equiv/KNOWN_ALARMS.json"
